@@ -264,7 +264,11 @@ struct WorkerOutcome {
 
 fn spawn_worker(exe: &Path, args: &[String], trace: Option<&Path>) -> std::process::Child {
     let mut c = Command::new(exe);
-    c.args(args).stdin(Stdio::null()).stdout(Stdio::inherit()).stderr(Stdio::inherit());
+    // the code under test writes diagnostics to stderr (e.g. `omitted choice ..`): keep them
+    // out of the check's output; the file is shown when a worker fails
+    let errlog = tmp_dir().join(format!("worker-{}.stderr", args.iter().take(5).cloned().collect::<Vec<_>>().join("-").replace('/', "_")));
+    let errfile = std::fs::File::create(&errlog).map(Stdio::from).unwrap_or_else(|_| Stdio::null());
+    c.args(args).stdin(Stdio::null()).stdout(Stdio::inherit()).stderr(errfile);
     if let Some(t) = trace {
         c.env("VCHECK_TRACE", t);
     } else {
@@ -530,7 +534,8 @@ pub fn parent_main(engine: &Engine, tier: Tier) -> i32 {
         cov.insert("traces_validated_against_impl".into(), json!(transitions + evaluations));
     }
     cov.insert("evaluations".into(), json!(evaluations + counters.get("transitions").copied().unwrap_or(0)));
-    cov.insert("distinct_nontrivial".into(), json!(distinct.len()));
+    let ndistinct = distinct.len() as u64 + counters.get("distinct_by_construction").copied().unwrap_or(0);
+    cov.insert("distinct_nontrivial".into(), json!(ndistinct));
     cov.insert("rule".into(), json!(engine.rule));
     if samples.is_empty() {
         samples.push(json!("(no case was executed)"));
@@ -567,7 +572,7 @@ pub fn parent_main(engine: &Engine, tier: Tier) -> i32 {
         engine.prop,
         tier.name(),
         summary.join(" "),
-        distinct.len(),
+        ndistinct,
         !capped,
         unlisted.len(),
         listed,
